@@ -62,7 +62,8 @@ pub fn check_case(rep: &Report, case: &Case, local: &mut Local, with_mt: bool) {
         match strictflac::parse(&bytes) {
             Err(e) => {
                 ok = false;
-                rep.violation(
+                rep.violation_x(
+                    mode == Mode::Mt,
                     &format!("strict_reject|{}", strictflac::clause(&e)),
                     &format!("{}: reference decoder cannot follow the stream: {e}", mode.name()),
                     case.json(),
@@ -74,7 +75,7 @@ pub fn check_case(rep: &Report, case: &Case, local: &mut Local, with_mt: bool) {
                 if n > 0 {
                     let mut fail = |class: &str, what: String| {
                         ok = false;
-                        rep.violation(class, &format!("{}: {what}", mode.name()), case.json(), case.weight());
+                        rep.violation_x(mode == Mode::Mt, class, &format!("{}: {what}", mode.name()), case.json(), case.weight());
                     };
                     if f.info.max_bs as usize != bs {
                         fail("max_block_size", format!("STREAMINFO max block size {} != requested {bs}", f.info.max_bs));
@@ -109,7 +110,8 @@ pub fn check_case(rep: &Report, case: &Case, local: &mut Local, with_mt: bool) {
             Err(e) => {
                 ok = false;
                 let reason: String = e.chars().filter(|c| !c.is_ascii_digit()).take(60).collect();
-                rep.violation(
+                rep.violation_x(
+                    mode == Mode::Mt,
                     &format!("claxon_reject|{reason}"),
                     &format!("{}: strict decoder rejects the stream (input length {}): {e}", mode.name(), case.input.len()),
                     case.json(),
@@ -119,7 +121,7 @@ pub fn check_case(rep: &Report, case: &Case, local: &mut Local, with_mt: bool) {
             Ok(c) => {
                 if c.samples != samples {
                     ok = false;
-                    rep.violation("claxon_samples", &format!("{}: claxon decodes different audio", mode.name()), case.json(), case.weight());
+                    rep.violation_x(mode == Mode::Mt, "claxon_samples", &format!("{}: claxon decodes different audio", mode.name()), case.json(), case.weight());
                 }
             }
         }
